@@ -35,6 +35,8 @@ ssize_t getrandom(void *buf, size_t len, unsigned int flags) {
  *                    (a pure function of seed and the call number)
  *   epipe=<N>        stdout accepts N bytes in total, then every write fails with EPIPE (the reader went away)
  *   enospc=<N>       files under $TMPDIR accept N bytes in total, then every write fails with ENOSPC (disk full)
+ *   eio=<N>          regular files under the working directory (the inputs and the extracted temporary copies; not
+ *                    the simulator's own .sim/ files) deliver N bytes in total, then every read fails with EIO
  * Counting is per process; with the baton scheduler one thread runs at a time, so the byte at which a
  * fault lands is a function of the plan. Writes to other descriptors are passed through untouched. */
 #include <errno.h>
@@ -42,7 +44,9 @@ ssize_t getrandom(void *buf, size_t len, unsigned int flags) {
 #include <sys/uio.h>
 
 static int io_init_done;
-static long long io_sw_seed = -1, io_epipe = -1, io_enospc = -1;
+static long long io_sw_seed = -1, io_epipe = -1, io_enospc = -1, io_eio = -1;
+static unsigned long long io_read_bytes;
+static char io_cwd[512];
 static unsigned long long io_sw_calls, io_out_bytes, io_tmp_bytes;
 static char io_tmpdir[512];
 
@@ -54,6 +58,8 @@ static void io_init(void) {
         if ((p = strstr(e, "sw="))) io_sw_seed = strtoll(p + 3, 0, 10);
         if ((p = strstr(e, "epipe="))) io_epipe = strtoll(p + 6, 0, 10);
         if ((p = strstr(e, "enospc="))) io_enospc = strtoll(p + 7, 0, 10);
+        if ((p = strstr(e, "eio="))) io_eio = strtoll(p + 4, 0, 10);
+        if (!getcwd(io_cwd, sizeof io_cwd - 1)) io_cwd[0] = 0;
         const char *t = getenv("TMPDIR");
         if (t) { strncpy(io_tmpdir, t, sizeof io_tmpdir - 1); }
     }
@@ -111,4 +117,29 @@ ssize_t writev(int fd, const struct iovec *iov, int cnt) {
         return 0;
     }
     return syscall(SYS_writev, fd, iov, cnt);
+}
+
+
+static int io_is_input(int fd) {
+    char link[64], path[600];
+    if (!io_cwd[0]) return 0;
+    snprintf(link, sizeof link, "/proc/self/fd/%d", fd);
+    ssize_t r = readlink(link, path, sizeof path - 1);
+    if (r <= 0) return 0;
+    path[r] = 0;
+    size_t n = strlen(io_cwd);
+    if (strncmp(path, io_cwd, n) != 0 || path[n] != '/') return 0;
+    return strncmp(path + n, "/.sim/", 6) != 0;
+}
+
+ssize_t read(int fd, void *buf, size_t n) {
+    io_init();
+    if (fd > 2 && io_eio >= 0 && n > 0 && io_is_input(fd)) {
+        if (io_read_bytes >= (unsigned long long)io_eio) { errno = EIO; return -1; }
+        if (n > (unsigned long long)io_eio - io_read_bytes) n = (size_t)((unsigned long long)io_eio - io_read_bytes);
+        ssize_t r = syscall(SYS_read, fd, buf, n);
+        if (r > 0) io_read_bytes += (unsigned long long)r;
+        return r;
+    }
+    return syscall(SYS_read, fd, buf, n);
 }
